@@ -42,20 +42,47 @@ Section Statements.
     res = PRet (Some EvWake) \/ Wk s'.
   Proof. exact wake_not_lost. Qed.
 
-  (* a wake request puts the wake in the pipeline, also when the socket is full *)
+  (* ... and it does not sleep: the result is never "blocked in select" *)
+  Theorem C17_wake_never_sleeps_partial : forall finite (s : pstate) sched, Wk s ->
+    fst (fst (poll finite s sched)) <> PBlocked.
+  Proof. exact wake_never_sleeps. Qed.
+
+  (* a wake request puts the wake in the pipeline, also when the socket is full (EAGAIN is
+     swallowed, the socket is not empty then).  By definition of `arrive`: the model assumes the
+     one-byte non-blocking write succeeds or fails with EAGAIN; the code also swallows EINTR,
+     which a non-blocking socket write does not produce (design/C17.md) *)
   Theorem C17_wake_request_partial : forall s : pstate, Wk (arrive s MWake).
   Proof. intro s. left. cbn. unfold pipe_cap. apply Nat.lt_0_succ. Qed.
 
-  (* an iteration of the loop that gets through select with a byte in the socket queues Wake;
-     events leave the queue oldest first: the Wake is returned after the events queued before it *)
-  Theorem C17_wake_progress_partial : forall (s : pstate) r nodelay s',
-    0 < pipe (arrive_all s (r_before r)) -> round_body s r nodelay = inr s' ->
+  (* an iteration of the loop that gets through select with a byte in the socket queues Wake *)
+  Theorem C17_wake_progress_partial : forall (s : pstate) r nodelay s' w,
+    0 < pipe (arrive_all s (r_before r)) -> round_body s r nodelay = inr (s', w) ->
     In EvWake (events s').
   Proof. exact round_queues_wake. Qed.
 
-  Theorem C17_fifo_partial : forall s : pstate,
-    fst (pop_ret s) = PRet (hd_error (events s)) /\ events (snd (pop_ret s)) = tl (events s).
-  Proof. exact poll_returns_oldest. Qed.
+  (* "the current poll returns": the loop ends with an event as soon as one is queued and
+     nothing is left to write, or the tty does not take more - in particular in the very iteration
+     in which the wake byte is read while the tty is stalled *)
+  Theorem C17_returns_when_idle_partial : forall finite first (s : pstate) sched,
+    queue_empty s = true -> events s <> [] ->
+    exists e, fst (fst (poll_loop finite first s sched)) = PRet (Some e).
+  Proof. exact returns_when_idle. Qed.
+
+  Theorem C17_wake_returns_now_partial : forall finite first (s : pstate) r rest s',
+    (queue_empty s && negb (events_empty s)) = false ->
+    (finite && r_expired r && negb first) = false -> r_eintr r = false ->
+    0 < pipe (arrive_all s (r_before r)) ->
+    round_body s r (negb finite) = inr (s', false) ->
+    exists e, fst (fst (poll_loop finite first s (r :: rest))) = PRet (Some e).
+  Proof. exact wake_returns_now. Qed.
+
+  (* events leave oldest first: a poll that returns, returns the oldest queued event and leaves
+     the rest followed by what arrived meanwhile; an event with i events ahead of it is returned
+     by the (i+1)-th poll that returns *)
+  Theorem C17_fifo_partial : forall finite (s : pstate) sched res s' rest,
+    poll finite s sched = (PRet res, s', rest) ->
+    exists add, popped (events s ++ add) (PRet res) s'.
+  Proof. exact poll_fifo. Qed.
 
   (* a termination signal flagged when select is called makes that iteration return an error
      (quit; or the write error that came first) *)
@@ -85,29 +112,38 @@ Section Statements.
     /\ stream s' = tty (io s) ++ front_slice (tq (io s)) ++ closing.
   Proof. exact dispose_restores. Qed.
 
-  Theorem C17_closing_delivered_partial : forall (is_da : T -> bool) (closing : list A) fuel (s : pstate) sched s',
+  (* the closing sequence is delivered whenever, in the first iteration of dispose's first poll,
+     the tty is writable and takes the slice it is given (the peer is reading, it has not hung
+     up) - whatever else
+     happens: flagged signals (forgotten before the wait), later hang-up, timeouts, the answer
+     arriving or not *)
+  Theorem C17_closing_delivered_partial : forall (is_da : T -> bool) (closing : list A) fuel (s : pstate) r rest k s',
     QI s -> (N.of_nat (total_len (chunks (tq (io s))) + length closing) <= usize_max)%N ->
-    dispose is_da closing fuel s sched = Some s' -> queue_empty s' = true ->
+    r_eintr r = false -> r_wr_err r = false -> r_accept r = Some k -> (usize_max <= k)%N ->
+    hup s = false -> Forall (fun m => m <> MHup) (r_before r) ->
+    dispose is_da closing fuel s (r :: rest) = Some s' ->
     tty (io s') = tty (io s) ++ front_slice (tq (io s)) ++ closing.
-  Proof. exact dispose_delivers_closing. Qed.
+  Proof. exact dispose_delivers_when_tty_accepts. Qed.
 End Statements.
 
-(* ---- the boundary of the property, exhibited on the model (known findings, see design/C17.md) *)
+(* ---- boundaries, exhibited on the model *)
 
 Definition stall : round_env N := mkR false [] false None false [] [] [] 1024.
 
 (* a wake is pending, 3 bytes of output are queued, the tty never becomes writable and the poll
-   has no timeout: the Wake event is queued in the first iteration, and the poll blocks *)
-Theorem C17_wake_blocked_by_stalled_output_refuted :
+   has no timeout: the Wake event is queued in the first iteration and the poll returns it at
+   once (before the third `fix:` of this property the poll blocked here, see design/C17.md) *)
+Example C17_wake_with_stalled_output_example :
   let s0 : pstate N N := opened 7 8 in
   let s1 := arrive (upd_io s0 (mkT (write (tq (io s0)) [1;2;3]%N) [] 0)) MWake in
   let '(res, s', _) := poll false s1 [stall; stall; stall] in
-  res = PBlocked /\ events s' = [EvWake].
+  res = PRet (Some EvWake) /\ queue_empty s' = false.
 Proof. vm_compute. split; reflexivity. Qed.
 
-(* dispose with a peer that does not read: the one-second polls time out, the line settings are
-   restored, the closing sequence is still in the queue *)
-Theorem C17_closing_not_delivered_when_peer_stalls_refuted :
+(* domain assumption "the peer eventually reads": dispose with a peer that never reads - the
+   one-second polls time out, the line settings are restored, the closing sequence is still in
+   the queue.  No bounded Drop can do better; not a finding. *)
+Theorem C17_closing_needs_a_reading_peer_refuted :
   let expired : round_env N := mkR true [] false None false [] [] [] 1024 in
   let s0 : pstate N N := opened 7 8 in
   match dispose (fun t => N.eqb t 9) [27; 99]%N 5 s0 [stall; expired; expired] with
@@ -115,6 +151,26 @@ Theorem C17_closing_not_delivered_when_peer_stalls_refuted :
   | None => False
   end.
 Proof. vm_compute. repeat split; reflexivity. Qed.
+
+(* a termination signal flagged when the object is dropped no longer cuts the delivery short *)
+Example C17_quit_pending_at_drop_example :
+  let r0 : round_env N := mkR false [] false (Some 18446744073709551615%N) false [] [] [] 1024 in
+  let s0 : pstate N N := arrive (opened 7 8) MTerm in
+  match dispose (fun t => N.eqb t 9) [27; 99]%N 5 s0 [r0; stall; mkR true [] false None false [] [] [] 1024] with
+  | Some s' => cur s' = 7%N /\ tty (io s') = [27; 99]%N /\ termsig s' = false
+  | None => False
+  end.
+Proof. vm_compute. repeat split; reflexivity. Qed.
+
+(* SIGWINCH flagged together with a termination signal: the Resize event is queued before the
+   quit error is returned, and the next poll returns it *)
+Example C17_winch_with_quit_example :
+  let r0 : round_env N := mkR true [] false None false [] [] [] 1024 in
+  let s0 : pstate N N := arrive (arrive (opened 7 8) MWinch) MTerm in
+  let '(a, s1, _) := poll true s0 [r0; r0] in
+  let '(b, s2, _) := poll true s1 [r0; r0] in
+  (a, b) = (PErr Quit, PRet (Some EvResize)).
+Proof. vm_compute. reflexivity. Qed.
 
 (* ---- non-vacuity: three wakes from other threads and two keys typed before a poll with
    timeout zero: the poll returns Wake; the next two return the keys in order; then nothing *)
